@@ -64,6 +64,7 @@ var piecesCore = []string{
 }
 
 var piecesWild = []string{
+	"   >\t\x00", ">\t\x00", "  >\t\x00]: /u", "> [a\n   >\t\x00]: /u\n", "- [a\n\t\x00]: /u\n", "\t\x00",
 	"\ufeff", "\ufeff# h", "\n\n\ufeff", "[a](<b\\\nc>)", "[r]: <b\\\nc>\n",
 	"\t", "\t\t", " \t", "\t ", "-\t", "1.\t", ">\t", "\ta", "  \ta", "\r", "\r\n", "\r\n\r\n", "a\r", "a\r\nb", "\r\r",
 	"\x00", "\x00\x00", "a\x00b", "\xff", "\xc3", "\xe2\x82", "\xf0\x9f", "\x80", "\xed\xa0\x80", "\xef\xbf\xbd",
@@ -477,6 +478,14 @@ func genInlineRich(r *Rng, wild bool) []byte {
 		if wild {
 			body = string(prefixLines([]byte(body), "1. ", "\t"))
 		}
+	case 7:
+		if wild {
+			body = string(prefixLines([]byte(strings.ReplaceAll(body, "\n", "\n\x00")), "> ", "   >\t"))
+		}
+	case 8:
+		if wild {
+			body = string(prefixLines([]byte(strings.ReplaceAll(body, "\n", "\n\x00")), "- ", "\t"))
+		}
 	case 5:
 		body = string(prefixLines([]byte(body), "> > > ", "> > > "))
 	case 6:
@@ -558,6 +567,34 @@ func chunkBoundaryDocs() [][]byte {
 			b = append(b, d[mid:]...)
 			b = append(b, make([]byte, z-z/2)...)
 			out = append(out, b)
+		}
+	}
+	return out
+}
+
+// hugeBlankRunDocs: more than the streaming parser's block-size limit of blank lines between (or before) small blocks.
+func hugeBlankRunDocs() [][]byte {
+	n := 1<<20 + 16
+	return [][]byte{
+		[]byte("first\n" + strings.Repeat("\n", n) + "second\n"),
+		[]byte("first\r\n" + strings.Repeat("\r\n", n/2+8) + "second\r\n"),
+		[]byte(strings.Repeat("\n", n) + "only\n"),
+		[]byte("a\n\n" + strings.Repeat(" \t \n", n/4+8) + "b\n"),
+	}
+}
+
+// longLabelDocs: labels of 869..1000 characters wrapped over lines of several widths, defined at top level and used in
+// every reference form at top level and inside nested containers (where the continuation lines carry prefixes).
+func longLabelDocs() [][]byte {
+	var out [][]byte
+	for _, n := range []int{869, 960, 989, 998, 999, 1000} {
+		for _, w := range []int{29, 60, 98} {
+			l := longLabel(n, w)
+			for _, use := range []string{"[" + l + "]", "[" + l + "][]", "![x][" + l + "]", "[t][" + l + "]"} {
+				for _, pc := range [][2]string{{"", ""}, {"> ", "> "}, {"> > > ", "> > > "}, {"- ", "  "}, {"1. > ", "   > "}} {
+					out = append(out, []byte("["+l+"]: /url\n\n"+string(prefixLines([]byte(use+"\n"), pc[0], pc[1]))))
+				}
+			}
 		}
 	}
 	return out
